@@ -269,12 +269,15 @@ def check(run: Run) -> None:
         if f is None:
             raise AnalysisError(f"anchor vanished: ObjectStream.{op}")
         fo = ctx.analysis(f)
-        builds = [c for c in calls_in(f) if isinstance(c.func, ast.Name) and c.func.id == "function_call" and len(c.args) == 2 and isinstance(c.args[1], ast.List) and c.args[1].elts]
-        run.check(len(builds) == 1, "C09.R4", f, f.node, f"{op} builds one operator node", f"{len(builds)} operator nodes")
+        rt_ = strip_sites(fo.return_term())
+        from ..lib import walk_terms
+
+        builds = list(dict.fromkeys(s_ for s_ in walk_terms(rt_) if isinstance(s_, tuple) and s_ and s_[0] == "app" and s_[1][0] == "global" and s_[1][1].endswith(".function_call") and len(s_[2]) == 2 and s_[2][0] == ("const", op) and s_[2][1][0] == "list" and s_[2][1][1]))
+        run.check(len(builds) == 1, "C09.R4", f, f.node, f"{op} builds one operator node", f"{len(builds)} operator nodes in what {op} returns")
         for b in builds:
-            t = strip_sites(fo.term_of(b.args[1].elts[0]))
+            t = b[2][1][1][0]
             ok = t[0] == "attr" and t[2] == "_q_ast" and t[1][0] == "index" and t[1][2] == 0 and t[1][1][0] == "app" and t[1][1][1][1].endswith("remap_from_lambda")
-            run.check(ok, "C09.R4", f, stmt_of(b), f"{op}'s source is the stream returned by type following", f"{op} uses {show(t)[:80]} as the operator's source instead of the updated stream's AST (n_stream.query_ast): MetaData attached by callbacks inside the lambda is lost", "n_stream.query_ast", show(t))
+            run.check(ok, "C09.R4", f, f.node, f"{op}'s source is the stream returned by type following", f"{op} uses {show(t)[:80]} as the operator's source instead of the updated stream's AST (n_stream.query_ast): MetaData attached by callbacks inside the lambda is lost", "n_stream.query_ast", show(t))
     rl = m.find_func("remap_from_lambda", in_module=mod)
     frl = ctx.analysis(rl)
     rrt = strip_sites(frl.return_term())
